@@ -362,8 +362,9 @@ impl SharedRateLimiter {
                 // Try again after waiting
                 let mut state = self.state.lock().unwrap();
                 match state.try_acquire() {
-                    Ok(additional_wait) => Ok(wait_duration + additional_wait),
-                    Err(_) => Err(()), // Timeout exceeded
+                    Ok(Duration::ZERO) => Ok(wait_duration),
+                    // Still no permit after waiting: reject rather than admit without one
+                    Ok(_) | Err(_) => Err(()),
                 }
             }
             Err(_) => {
